@@ -58,6 +58,50 @@ func runC04(w *World, r *Report, tier string) {
 		return false
 	})
 	r.Tables["O1.gate_edges"] = len(gate)
+	// path form of the same gate, for a test that sits in a helper whose boolean result NewSession branches on: every path
+	// (helpers walked through) from the entry to the instruction has taken IsSecure()==true or Config.Insecure==true, the
+	// branch conditions being resolved through what the helper returned on that path
+	isGateAssertion := func(c ssa.Value, truth bool) bool {
+		if !truth {
+			return false
+		}
+		var rc ssa.Value
+		if curPath != nil {
+			rc = resolveOn(c, curEdgeIdx, curPath.path)
+		}
+		for _, v := range []ssa.Value{c, rc} {
+			if v == nil {
+				continue
+			}
+			if w.isResultOf(v, 0, isSecureKeys...) {
+				return true
+			}
+			if f, _ := loadedField(v); f == fInsecure {
+				return true
+			}
+		}
+		return false
+	}
+	gatedCache := map[ssa.Instruction]bool{}
+	gatedOnEveryPath := func(target ssa.Instruction) bool {
+		if v, ok := gatedCache[target]; ok {
+			return v
+		}
+		okAll, n := true, 0
+		err := walkPaths(entryLoc(ns), func(in ssa.Instruction) bool { return in == target }, nil, 200000, func(path []ssa.Instruction, end pathEnd) {
+			if path[len(path)-1] != target {
+				return
+			}
+			n++
+			if !pathAsserts(path, isGateAssertion) {
+				okAll = false
+			}
+		})
+		v := err == nil && okAll && n > 0
+		gatedCache[target] = v
+		return v
+	}
+	c04GatedPathForm = gatedOnEveryPath
 	protected := []string{"xmpp.Session.auth", "xmpp.Session.resume", "xmpp.Session.bind", "xmpp.Session.rfc3921Session", "xmpp.Session.EnableStreamManagement"}
 	for _, k := range protected {
 		calls := w.callsInH(ns, k)
@@ -68,6 +112,10 @@ func runC04(w *World, r *Report, tier string) {
 		for i, c := range calls {
 			cons := fmt.Sprintf("xmpp.NewSession→%s#%d", k, i)
 			path, _ := reach(entryLoc(ns), func(in ssa.Instruction) bool { return in == c.(ssa.Instruction) }, nil, gate)
+			if path != nil && gatedOnEveryPath(c.(ssa.Instruction)) {
+				r.Ok("O1", cons, "path form: every path to the call has taken IsSecure()==true or Config.Insecure==true (test in a helper)")
+				continue
+			}
 			if path != nil {
 				r.Fail("O1", cons, w.ipos(c), "reachable without crossing IsSecure()==true or Config.Insecure==true: "+pathString(w, path))
 			} else {
@@ -79,7 +127,7 @@ func runC04(w *World, r *Report, tier string) {
 	writeKeys := []string{"xmpp.Transport.Write", "fmt.Fprintf", "fmt.Fprint", "fmt.Fprintln", "io.Writer.Write", "io.WriteString", "xmpp.Client.sendWithWriter", "xmpp.Client.Send", "xmpp.Client.SendRaw", "xmpp.Client.SendIQ"}
 	for i, c := range w.callsInH(ns, writeKeys...) {
 		cons := fmt.Sprintf("xmpp.NewSession→write#%d", i)
-		if path, _ := reach(entryLoc(ns), func(in ssa.Instruction) bool { return in == c.(ssa.Instruction) }, nil, gate); path != nil {
+		if path, _ := reach(entryLoc(ns), func(in ssa.Instruction) bool { return in == c.(ssa.Instruction) }, nil, gate); path != nil && !gatedOnEveryPath(c.(ssa.Instruction)) {
 			r.Fail("O1", cons, w.ipos(c), "direct write in NewSession reachable before the TLS gate")
 		} else {
 			r.Ok("O1", cons)
@@ -651,6 +699,9 @@ func describe(w *World, v ssa.Value) string {
 }
 
 // c04PreGateWrites — O2.
+// c04GatedPathForm: set by runC04 (the path form of the gate, see O1)
+var c04GatedPathForm func(ssa.Instruction) bool
+
 func c04PreGateWrites(w *World, r *Report, ns *ssa.Function, gate EdgeSet) {
 	connect := w.Func("xmpp.(*Client).connect")
 	r.Anchor("xmpp.(*Client).connect")
@@ -671,7 +722,7 @@ func c04PreGateWrites(w *World, r *Report, ns *ssa.Function, gate EdgeSet) {
 	// ungated calls in NewSession
 	allInstrs(ns, func(in ssa.Instruction) {
 		if c := asCall(in); c != nil {
-			if reachable(entryLoc(ns), func(x ssa.Instruction) bool { return x == in }, nil, gate) {
+			if reachable(entryLoc(ns), func(x ssa.Instruction) bool { return x == in }, nil, gate) && !(c04GatedPathForm != nil && c04GatedPathForm(in)) {
 				roots = append(roots, c)
 			}
 		}
